@@ -14,7 +14,7 @@ from . import apprig, ncp_netinfo, vloop
 from .c04 import pmap
 from .core import Ctx
 
-INVS = ("CompletedOk", "SecurityStateExactOk", "StoreHoldsOk", "RoundTripOk", "OrderOkOk", "NodeAddressOk", "TcAddressOk", "ReadMatchesStoreOk")
+INVS = ("CompletedOk", "SecurityStateExactOk", "StoreHoldsOk", "RoundTripOk", "OrderOkOk", "NodeAddressOk", "TcAddressOk", "ReadMatchesStoreOk", "OverlapReadsOk")
 WELL_KNOWN = b"ZigBeeAlliance09"
 # EmberInitialSecurityBitmask, pinned from the EmberZNet headers
 F_PRECONFIGURED_KEY, F_NETWORK_KEY, F_TC_EUI64, F_HASHED = 0x0100, 0x0200, 0x0040, 0x0084
@@ -63,6 +63,7 @@ def gen_case(ver, rng: random.Random):
         "children": children,
         "stale": rng.random() < 0.5,          # the NCP is off-network but still holds link keys of an earlier network / unfinished restore (the key table outlives a network; the child table does not)
         "dropChild": rng.random() < 0.6,      # afterwards the child in the lowest slot leaves and the settings are read once more
+        "overlap": rng.choice((None, 0, 1, 2, 3, 4, 5, 6, 7, 8, 9, 10, 11, 12)),   # then two reads overlap, the second lagging by this many commands
     }
 
 
@@ -171,6 +172,30 @@ def run_case(case):
                 second = 1
                 r2c = [{"eui": list(e.serialize()), "nwk": int(x.nwk_addresses.get(e, 0xFFFF))} for e in x.children]
                 st2c = [{"eui": list(e), "nwk": n} for (e, n, _t) in store.children.values()]
+        # two reads that overlap: the second starts after the first has issued `lag` commands; each is recorded when it ends
+        overlap, ro = 0, []
+        if completed and case.get("overlap") is not None:
+            overlap = 1
+
+            def snap(_f):
+                x = app.state.network_info
+                ro.append({"pan": int(x.pan_id), "epan": list(x.extended_pan_id.serialize()), "channel": int(x.channel), "updateId": int(x.nwk_update_id),
+                           "netKey": list(x.network_key.key.serialize()), "netSeq": int(x.network_key.seq), "netFc": str(int(x.network_key.tx_counter)),
+                           "tclk": list(x.tc_link_key.key.serialize()), "tcPartner": list(x.tc_link_key.partner_ieee.serialize()),
+                           "ieee": list(app.state.node_info.ieee.serialize())})
+            base = len(ncp.log)
+            ta = asyncio.ensure_future(app.load_network_info(load_devices=False))
+            ta.add_done_callback(snap)
+            for _ in range(400):
+                if len(ncp.log) - base >= case["overlap"] or ta.done():
+                    break
+                await asyncio.sleep(0)
+            tb = asyncio.ensure_future(app.load_network_info(load_devices=False))
+            tb.add_done_callback(snap)
+            ok = await apprig.run_until_done(loop, [ta, tb], limit_s=600)
+            if not ok or ta.exception() is not None or tb.exception() is not None:
+                completed, exc = 0, "overlap:" + ("hang" if not ok else type(ta.exception() or tb.exception()).__name__)
+                ro.clear()
         # the settings as effectively supplied (write_network_info adjusts addresses it cannot write and fills in a hashed key)
         hs_w = ni.stack_specific.get("ezsp", {}).get("hashed_tclk")
         w = {"pan": case["pan"], "epan": case["epan"], "channel": case["channel"], "mask": str(case["mask"]), "updateId": case["updateId"],
@@ -184,7 +209,8 @@ def run_case(case):
              "canSet": int((bool(case["rewritable"]) and "getTokenData" in ncp.cmds and "setTokenData" in ncp.cmds)     # token commands exist from version 9 on
                            or (bool(case.get("burn")) and can_burn0))}
         return [{"a": "run", "ver": ver, "rewritable": int(case["rewritable"]), "twice": int(bool(case.get("twice"))), "w": w, "sec": sec, "st": st, "r": r, "order": order,
-                 "completed": completed, "exc": exc, "second": second, "r2children": r2c, "st2children": st2c}]
+                 "completed": completed, "exc": exc, "second": second, "r2children": r2c, "st2children": st2c,
+                 "overlap": overlap, "ro": ro}]
     return vloop.run(main)
 
 
@@ -211,13 +237,20 @@ def run(ctx: Ctx):
             if k < len(SYSTEMATIC):          # the address / capability dimensions are covered systematically first
                 c.update(dict(zip(("rewritable", "ieee", "tc", "twice", "burn"), SYSTEMATIC[k])))
             cases.append(c)
+        # overlapping reads: every lag of the second read behind the first, per version
+        for lag in range(0, 16):
+            for _ in range(1 if ctx.quick else 4):
+                c = gen_case(ver, rng)
+                c.update({"overlap": lag, "twice": False, "dropChild": False})
+                cases.append(c)
     traces = pmap(run_case, cases, chunksize=4)
     ctx.evaluations = len(traces)
     ctx.distinct_nontrivial = len({str(c) for c in cases})
     ctx.rule = (f"per protocol version 4..14: {n} generated settings (0..4 link keys, 0..4 children some without network address, trust-centre address unknown / "
                 "own / other, hashed link key supplied or absent, node address equal to / different from the NCP's / unknown, counters incl. values above 2^31, NCP with or "
                 "without a rewritable EUI64 token, permission to burn the write-once address token or not, the backup restored once or twice in a row); each run = "
-                "write_network_info (x1 or x2) + load_network_info(load_devices=True); distinct = distinct case")
+                "write_network_info (x1 or x2) + load_network_info(load_devices=True) [+ two overlapping load_network_info(load_devices=False), the second "
+                "lagging 0..15 commands behind the first]; distinct = distinct case")
     ctx.add_sample(traces[0][0])
     ctx.validate_traces("Trace_NetInfo", traces, invariants=INVS, metas=cases, label="network info", sig=sig)
     # the wire layouts of the structures this procedure exchanges with the NCP, pinned from the EZSP reference (spec/WireLayout.tla)
